@@ -154,7 +154,7 @@ func (v *valBool) encode(buf decoder.EncoderType) {
 
 func (v *valBool) decode(dec decoder.Decoder) error {
 	v.name = dec.Data()
-	_ = dec.Byte() // len is 1, read away
+	_ = dec.Int16() // value length is 1 (two bytes, as encode writes it), read away
 
 	if b := dec.Byte(); b == 1 {
 		v.val = append(v.val, true)
@@ -162,11 +162,12 @@ func (v *valBool) decode(dec decoder.Decoder) error {
 		v.val = append(v.val, false)
 	}
 
-	// Check for additional values
+	// Check for additional values: same tag, zero-length name
 	vtag := dec.Byte()
-	for vtag != v.tag {
+	for vtag == v.tag {
 		//check name length
 		if l := dec.Int16(); l == 0 {
+			_ = dec.Int16() // value length
 			if b := dec.Byte(); b == 1 {
 				v.val = append(v.val, true)
 			} else {
